@@ -26,6 +26,7 @@ fn main() {
                 replay_dir: arg(&args, "--replays").unwrap_or_else(|| "/verif/.work".into()),
                 known_path,
                 strict: args.iter().any(|a| a == "--strict"),
+                nworkers: arg(&args, "--nworkers").and_then(|s| s.parse().ok()).unwrap_or(16),
             };
             let _ = std::fs::create_dir_all(&a.work_dir);
             let rep = match prop {
